@@ -36,6 +36,11 @@ def worker_plan(c, ncases):
                   'mk.aead scheme=aead128 obj=1003 n=%s ad=- m=%s tape=rand tapedata=%s' % (n, hx(pattern(rng, 9)), hx(pattern(rng, 8, 'rand'))),
                   'mk.aead scheme=aead80pq obj=1004 n=%s ad=%s m=%s tape=rand tapedata=%s' % (n, hx(b'ab'), hx(pattern(rng, 17)), hx(pattern(rng, 8, 'rand'))),
                   'mk.op name=extract bits=128 obj=1003']
+    # every cipher once per thread with outputs whose last byte is the last accessible byte (tight=1): a store past the
+    # documented size, even one that puts back what it read, would land in memory another thread may own
+    for sc, klen in (('aead128', 16), ('aead128a', 16), ('aead80pq', 20), ('siv128', 16), ('siv128a', 16), ('siv80pq', 20), ('isap128a', 16), ('isap128', 16), ('isap80pq', 20)):
+        for ml in (13, 3 if sc.startswith('isap') else 21):
+            lines.append('aead.forge scheme=%s k=%s n=%s ad=%s m=%s fam=c muts=id;c:0:1 tape=rand tight=1' % (sc, hx(pattern(rng, klen, 'rand')), hx(pattern(rng, 16, 'rand')), hx(pattern(rng, rng.choice([0, 5]))), hx(pattern(rng, ml, 'rand'))))
     # keys, salts and passwords of every length class of the HMAC key block (the caller's buffers are read-only pages)
     for kl in (0, 16, 32, 33, 48, 64, 65, 100):
         k = hx(pattern(rng, kl, 'rand'))
@@ -67,7 +72,7 @@ def threaded_run(c, flavour, lines, nthreads, repeat, name, env=None, drv=None):
         open(rd + '/replay.sh', 'w').write('#!/bin/sh\n/verif/tools/build.sh %s && TSAN_OPTIONS=exitcode=97:halt_on_error=1 /verif/.build/drv/%s/drv %s/plan.txt /tmp/c16.trace %d %d\n' % (flavour, flavour, rd, nthreads, repeat))
         m = re.search(r'(WARNING: ThreadSanitizer: [^\n]*)(.*?)(Location is [^\n]*|SUMMARY[^\n]*)', out, re.S)
         what = (m.group(1) + ' ' + m.group(3)) if m else out[-300:]
-        if rc == 3 and not m: what = 'the driver was killed by a signal: a store to memory the library may only read (a const input in read-only pages, a shared object while the threads run) or a wild access'
+        if rc == 3 and not m: what = 'the driver was killed by a signal: a store to memory the library may only read (a const input in read-only pages, a shared object while the threads run) an access past the last byte of an output buffer (outputs end at an inaccessible page), or a wild access'
         gl = re.search(r"global '([^']+)'", out)
         c.violation('race:' + (gl.group(1) if gl else flavour), 'multi-threaded run failed (rc=%d): %s' % (rc, what[:400]), rd)
         return
